@@ -58,7 +58,7 @@ FLOORS = {
     'entry:nontrivial': 0.08,
     'matrix:repeat': 0.05,
     'matrix:empty-selection': 0.02,
-    'decoded:layouts-differ': 0.5,
+    'decoded:layouts-differ': 0.04,
 }
 
 KINDS = {
